@@ -377,6 +377,28 @@ def wrapKids (s : Stack) : List NS → Res Stack
         | .ok s2 => wrapKids s2 ks
 end
 
+/-- The class loop of the emitters (`for cls in node.classes: _push_splicer(name); <struct or class
+    branch>; _pop_splicer(name)`), reduced to its stack operations: whichever branch wraps the class or
+    struct, the level entered for it is left again. -/
+def wrapClassList : Stack → List Str → Res Stack
+  | s, [] => .ok s
+  | s, c :: cs =>
+    match push s c with
+    | .crash e => .crash e
+    | .ok s1 =>
+      match pop s1 with
+      | .crash e => .crash e
+      | .ok s2 => wrapClassList s2 cs
+
+/-- `_push_splicer("class")`, the loop, `_pop_splicer("class")` -/
+def wrapClasses (s : Stack) (classes : List Str) : Res Stack :=
+  match push s "class".toList with
+  | .crash e => .crash e
+  | .ok s1 =>
+    match wrapClassList s1 classes with
+    | .crash e => .crash e
+    | .ok s2 => pop s2
+
 def joinDot : Path → Str
   | [] => []
   | [a] => a
